@@ -421,6 +421,8 @@ fn find_word_next(string: &str, cursor: usize, full_word: bool) -> usize {
                         return i;
                     }
                 }
+                // Only spaces until end of line: no next word
+                break;
             }
             // First punctuation after word
             // OR first word after punctuation
